@@ -20,7 +20,9 @@ warnings.simplefilter('ignore')
 import nibabel as nib  # noqa: E402
 from nibabel.freesurfer import MGHImage  # noqa: E402
 
-KLASS = {'N': nib.Nifti1Image, 'P': nib.Nifti1Pair, 'M': MGHImage}
+KLASS = {'N': nib.Nifti1Image, 'P': nib.Nifti1Pair, 'M': MGHImage, 'A': nib.Spm2AnalyzeImage}
+FULL_EXT = {'N': ('.nii',), 'P': ('.img', '.hdr'), 'M': ('.mgh',), 'A': ('.img', '.hdr', '.mat')}
+ATOL = 1e-2      # affine identity; the precision of the stored affine is C04's subject (MGH keeps float32 direction cosines)
 NPDT = {'f4': np.float32, 'f8': np.float64}
 NVAL = 4
 NAFF = 4
@@ -31,7 +33,21 @@ def value(v, shape):
     return ((np.arange(n) * (v + 2) + 3 * v) % 97 + 1).reshape(shape, order='F')
 
 
-def affine(a):
+def affine(a, shape=(2, 3, 4)):
+    """0, 1: axis aligned; 2: oblique (rotation about z); 3: the affine an SPM Analyze header with these
+    zooms gives by itself (so that a writer may think the .mat side-car is redundant)"""
+    if a == 2:
+        c, s_ = np.cos(0.3), np.sin(0.3)
+        rot = np.array([[c, -s_, 0], [s_, c, 0], [0, 0, 1]])
+        out = np.eye(4)
+        out[:3, :3] = rot @ np.diag([2., 3, 4])
+        out[:3, 3] = [-12, -20, -30]
+        return out
+    if a == 3:
+        h = nib.Spm2AnalyzeHeader()
+        h.set_data_shape(shape)
+        h.set_zooms((2., 3, 4) + (1.,) * (len(shape) - 3))
+        return np.array(h.get_best_affine())
     return np.array([[2., 0, 0, -10 - a], [0, 3, 0, -20], [0, 0, 4, -30], [0, 0, 0, 1]])
 
 
@@ -46,9 +62,9 @@ def ident(arr, shape):
     return 'G'
 
 
-def ident_aff(aff):
+def ident_aff(aff, shape):
     for a in range(NAFF):
-        if np.allclose(aff, affine(a), rtol=0, atol=1e-6):
+        if np.allclose(aff, affine(a, shape), rtol=0, atol=ATOL):
             return str(a)
     return '?'
 
@@ -77,6 +93,8 @@ def classify(e):
     m = str(e)
     if isinstance(e, FileNotFoundError) or (type(e).__name__ == 'ImageFileError' and 'not a file' in m.lower()):
         return 'ref:nofile'
+    if isinstance(e, OSError) and e.errno == 28:
+        return 'ref:nospace'
     if (isinstance(e, OSError) and 'Expected' in m) or (isinstance(e, ValueError) and 'not enough data' in m) \
             or isinstance(e, EOFError):
         return 'ref:short_read'
@@ -113,7 +131,7 @@ def run_history(h, workdir):
     for p in h['paths']:
         if p['init'] is not None:
             v, dt, a = p['init']
-            KLASS[p['fmt']](value(v, shape).astype(NPDT[dt]), affine(a)).to_filename(p['name'])
+            KLASS[p['fmt']](value(v, shape).astype(NPDT[dt]), affine(a, shape)).to_filename(p['name'])
     # other names of the same files: symbolic link, hard link, absolute spelling (every member of a pair)
     for i, p in enumerate(h['paths']):
         if p.get('link') is None:
@@ -133,7 +151,7 @@ def run_history(h, workdir):
         if s is None:
             imgs.append(None)
         else:
-            img = KLASS[s['fmt']](value(s['v'], shape).astype(np.float64), affine(s['aff']))
+            img = KLASS[s['fmt']](value(s['v'], shape).astype(np.float64), affine(s['aff'], shape))
             img.set_data_dtype(NPDT[s['dt']])
             imgs.append(img)
     saves = {}           # real path of image file -> list of saver slots, in order
@@ -179,6 +197,27 @@ def run_history(h, workdir):
                 else:
                     img.header['descrip'] = b'edited'
                 res = 'done'
+            elif kind == 'I':       # only in the fault histories that are judged by the predicate alone
+                img.set_data_dtype(np.int16)
+                res = 'done'
+            elif kind == 'X':
+                # a save that fails with ENOSPC: the name is a link to /dev/full
+                fmt = [k for k, K in KLASS.items() if type(img) is K][0]
+                for e in FULL_EXT[fmt]:
+                    if not os.path.lexists('full' + e):
+                        os.symlink('/dev/full', 'full' + e)
+                pre = np.array(np.asanyarray(img.dataobj))
+                try:
+                    nib.save(img, 'full' + FULL_EXT[fmt][0])
+                    res = 'ref:other:no_error_from_dev_full'
+                except OSError as e:
+                    res = 'ref:nospace' if e.errno == 28 else classify(e)
+                try:
+                    post = np.asanyarray(img.dataobj)
+                    if post.shape != pre.shape or not np.array_equal(post, pre):
+                        print('PRED', hid, k, 'unusable_after_fault:differs', 'sig=-', flush=True)
+                except Exception as e:
+                    print('PRED', hid, k, 'unusable_after_fault:' + type(e).__name__, 'sig=-', flush=True)
             elif kind == 'D':
                 if not isinstance(img, MGHImage):
                     cur = np.dtype(img.get_data_dtype())
@@ -200,11 +239,15 @@ def run_history(h, workdir):
                 f = file_key(image_file(j))
                 saves.setdefault(f, []).append(s)
                 jd = np.asarray(j.dataobj)
-                res = 'saved:%d:%s:%s:%s' % (p, ident(jd, shape), dtname(j.get_data_dtype()), ident_aff(j.affine))
+                res = 'saved:%d:%s:%s:%s' % (p, ident(jd, shape), dtname(j.get_data_dtype()), ident_aff(j.affine, shape))
                 if pre is not None:
-                    if tuple(int(x) for x in jd.shape) != tuple(int(x) for x in pre.shape) or not np.array_equal(jd, pre) \
-                            or not np.allclose(j.affine, pre_aff, rtol=0, atol=1e-6):
-                        print('PRED', hid, k, 'file_differs', 'sig=-', flush=True)
+                    lossy = np.dtype(j.get_data_dtype()).kind in 'iu'     # integer storage of float data: C02's bound
+                    same = tuple(int(x) for x in jd.shape) == tuple(int(x) for x in pre.shape) and \
+                        (np.allclose(jd, pre, rtol=0, atol=0.05) if lossy else np.array_equal(jd, pre))
+                    if not same:
+                        print('PRED', hid, k, 'file_differs:data', 'sig=-', flush=True)
+                    elif not np.allclose(j.affine, pre_aff, rtol=0, atol=ATOL):
+                        print('PRED', hid, k, 'file_differs:affine', 'sig=-', flush=True)
                     sig = '-'
                     if own is not None and same_file(own, image_file(j)) and \
                             np.dtype(j.get_data_dtype()).newbyteorder('=') != np.dtype(prox.dtype).newbyteorder('='):
@@ -218,7 +261,7 @@ def run_history(h, workdir):
             elif kind == 'B':
                 b = img.to_bytes()
                 j = type(img).from_bytes(b)
-                res = 'bytes:%s:%s:%s' % (ident(np.asarray(j.dataobj), shape), dtname(j.get_data_dtype()), ident_aff(j.affine))
+                res = 'bytes:%s:%s:%s' % (ident(np.asarray(j.dataobj), shape), dtname(j.get_data_dtype()), ident_aff(j.affine, shape))
             else:
                 res = 'ref:other:badop'
         except Exception as e:
